@@ -271,8 +271,6 @@ pub fn eval_builtin_strlen(
         query.report,
         query.args[0].span)?;
 
-    // The length in bytes of the string in its own encoding
-    let size_in_bits = s.to_bigint().size.unwrap_or(0);
+    Ok(expr::Value::make_integer(s.utf8_contents.len()))
 
-    Ok(expr::Value::make_integer(size_in_bits / 8))
 }
